@@ -27,12 +27,13 @@ type Cfg struct {
 	Mode      uint32
 	FileName  string
 	Custom    bool // custom format name instead of the default
+	DevShm    bool `json:",omitempty"` // put the log directory under /dev/shm (a real directory whose path starts with /dev/) when that is writable
 	FmtKind   int  `json:",omitempty"` // which custom name: 0 "custom-format", 1 "JSON", 2 "text ", 3 " json", 4 "Custom-Format"
 	NestedDir bool
 }
 
 func (c Cfg) String() string {
-	return fmt.Sprintf("cfg{MaxBytes=%d MaxFiles=%d MaxDuration=%dms TSOnly=%v Mode=%#o File=%q custom=%v nested=%v}", c.MaxBytes, c.MaxFiles, c.MaxDurMs, c.TSOnly, c.Mode, c.FileName, c.Custom, c.NestedDir)
+	return fmt.Sprintf("cfg{MaxBytes=%d MaxFiles=%d MaxDuration=%dms TSOnly=%v Mode=%#o File=%q custom=%v(%d) nested=%v devShm=%v}", c.MaxBytes, c.MaxFiles, c.MaxDurMs, c.TSOnly, c.Mode, c.FileName, c.Custom, c.FmtKind, c.NestedDir, c.DevShm)
 }
 
 type Op struct {
